@@ -50,14 +50,21 @@ def _drop_glyph(fam, name):
     return fam
 
 
-def shrink_world(scn, fails, budget):
-    spec = scn["world"]["spec"]
+def shrink_world(scn, fails, budget, index=None):
+    if "worlds" in scn and index is None:
+        for k in range(len(scn["worlds"])):
+            scn = shrink_world(scn, fails, budget, index=k)
+        return scn
+    spec = scn["worlds"][index] if index is not None else scn["world"]["spec"]
     if "corpus" in spec:
         return scn
 
     def with_spec(new):
         s = copy.deepcopy(scn)
-        s["world"]["spec"] = new
+        if index is not None:
+            s["worlds"][index] = new
+        else:
+            s["world"]["spec"] = new
         s["id"] = None  # disable image cache
         return s
 
